@@ -18,6 +18,7 @@ mod fam_besrv;
 mod fam_gpu;
 mod fam_ring;
 mod fam_worker;
+mod fam_shutdown;
 mod peer;
 mod daemon;
 mod fam_route;
@@ -84,6 +85,7 @@ fn fam_dispatch(fam: &str, line: &str) -> Option<String> {
         "gpu" => Some(fam_gpu::run(line)),
         "ring" => Some(fam_ring::run(line)),
         "worker" => Some(fam_worker::run(line)),
+        "shutdown" => Some(fam_shutdown::run(line)),
         _ => None,
     }
 }
